@@ -862,30 +862,36 @@ func (r *envelopingReader) Read(data []byte) (n int, err error) {
 		// otherwise EOF, fall through
 	}
 
-	if err := r.prepareNext(); err != nil {
-		r.err = err
-		return 0, err
-	}
+	for {
+		if err := r.prepareNext(); err != nil {
+			r.err = err
+			return 0, err
+		}
 
-	if len(data) < r.envRemain {
-		copy(data, r.env[envelopeLen-r.envRemain:])
-		r.envRemain -= len(data)
-		return len(data), nil
+		if len(data) < r.envRemain {
+			copy(data, r.env[envelopeLen-r.envRemain:])
+			r.envRemain -= len(data)
+			return len(data), nil
+		}
+		var offset int
+		if r.envRemain > 0 {
+			copy(data, r.env[envelopeLen-r.envRemain:])
+			offset = r.envRemain
+			r.envRemain = 0
+		}
+		n, err = 0, nil
+		if len(data) > offset {
+			n, err = r.current.Read(data[offset:])
+		}
+		if errors.Is(err, io.EOF) && (offset > 0 || r.rw.op.clientEnveloper != nil) {
+			// the end of this (possibly empty) message is not the end of the stream
+			err = nil
+			if offset+n == 0 {
+				continue // nothing to hand out for an empty message: go on to the next one
+			}
+		}
+		return offset + n, err
 	}
-	var offset int
-	if r.envRemain > 0 {
-		copy(data, r.env[envelopeLen-r.envRemain:])
-		offset = r.envRemain
-		r.envRemain = 0
-	}
-	if len(data) > offset {
-		n, err = r.current.Read(data[offset:])
-	}
-	if offset > 0 && errors.Is(err, io.EOF) {
-		// the end of this (possibly empty) message is not the end of the stream
-		err = nil
-	}
-	return offset + n, err
 }
 
 func (r *envelopingReader) Close() error {
